@@ -160,6 +160,34 @@ def run_shard(spec, tier, seed):
                 cell = f"{sname}|e{axn}:{R.sysname(s3)}"
                 J.vec("rotate_axis(e_x|y|z, a)=rotateX|Y|Z(a)", cell, A.rotate_axis(mode.vec(e_l), na),
                       getattr(A, "rotate" + axn)(na), unit, {**det, "angle": mpmath.nstr(ang, 25)})
+                # the negative axis of any length turns the other way
+                k = gen.dyadic(r, 0.25, 6)
+                try:
+                    m_l = mk(R.RV(*[-k * c for c in comps]), s3)
+                except R.NotRepresentable:
+                    continue
+                J.vec("rotate_axis(-k e_x|y|z, a)=rotateX|Y|Z(-a)", cell, A.rotate_axis(mode.vec(m_l), na),
+                      getattr(A, "rotate" + axn)(mode.num(-ang)), unit, {**det, "angle": mpmath.nstr(ang, 25), "axis": m_l.describe()})
+        # axes lying in a coordinate plane (one component exactly zero, the others of either sign)
+        for zi in range(3):
+            comps = [r.choice([1, -1]) * gen.dyadic(r, 0.5, 4) for _ in range(3)]
+            comps[zi] = mpf(0)
+            if di % 2:
+                comps = [-abs(c) for c in comps]
+            n_rv = R.RV(*comps)
+            for s3 in (S3[(di + zi) % len(S3)], S3[0]):
+                try:
+                    n_l = mk(n_rv, s3)
+                except R.NotRepresentable:
+                    continue
+                cell = f"{sname}|plane-axis{zi}:{R.sysname(s3)}"
+                d3 = {**det, "axis": n_l.describe(), "angle": mpmath.nstr(ang, 25)}
+                Rp = A.rotate_axis(mode.vec(n_l), na)
+                ne = mode.exact(n_l)
+                q = [mpmath.cos(ang / 2)] + [mpmath.sin(ang / 2) * c / ne.mag for c in (ne.x, ne.y, ne.z)]
+                J.vec("rotate_quaternion(cos a/2, n sin a/2)=rotate_axis(n,a) [axis in a coordinate plane]", cell,
+                      A.rotate_quaternion(*[mode.num(v) for v in q]), Rp, unit, d3)
+                J.vec("inverse R(-a)R(a)=1: rotate_axis [axis in a coordinate plane]", cell, Rp.rotate_axis(mode.vec(n_l), mode.num(-ang)), A, unit, d3)
 
         # ---------------- Euler: every order, both letter cases
         phi, theta, psi = gen.angle(r, core), gen.angle(r, core), gen.angle(r, core)
